@@ -1,5 +1,5 @@
 From Coq Require Import Extraction ExtrOcamlBasic.
-From LTV.C07 Require Import Model.
+From LTV.C07 Require Import Model WriteBuf.
 Set Extraction Optimize.
 Extraction Language OCaml.
-Extraction "extracted/c07_model.ml" encode decode_c decode_stream skip_c raw_c normalize.
+Extraction "extracted/c07_model.ml" encode decode_c decode_stream skip_c raw_c normalize wb_encode.
